@@ -673,6 +673,19 @@ func (fc *FuncCtx) applyContract(con *Contract, callee *ssa.Function, sig *types
 		evars["result"] = results[0]
 	}
 	envPost := &Env{fc: fc, vars: evars, st: post, old: st}
+	if len(con.Skolems) > 0 {
+		envPost.skolem = map[string]*skolemInst{}
+		for _, sk := range con.Skolems {
+			t := fc.topCtx()
+			t.nskolem++
+			var as []string
+			for _, a := range sk.Args {
+				as = append(as, sortOfTypeName(a))
+			}
+			fn := eng.ufun(fmt.Sprintf("sk_%s_%s_%d", sk.Name, sanitize(shortCallee(t.fnName)), t.nskolem), as, sortOfTypeName(sk.Result))
+			envPost.skolem[sk.Name] = &skolemInst{fn: fn, def: sk}
+		}
+	}
 	for i, c := range con.AssumedEns {
 		var t string
 		if err := catchTr(fmt.Sprintf("%s ensures-assumed %d (at call in %s)", con.Key, i, fc.fnName), func() { t = envPost.trBool(c.E) }); err != nil {
@@ -689,6 +702,12 @@ func (fc *FuncCtx) applyContract(con *Contract, callee *ssa.Function, sig *types
 		if err := catchTr(fmt.Sprintf("%s ensures %d (at call in %s)", con.Key, i, fc.fnName), func() { t = envPost.trBool(c.E) }); err != nil {
 			if strings.Contains(err.Error(), "unknown identifier") {
 				continue // the clause speaks about a local variable of the callee: checked there, of no use here
+			}
+			if strings.Contains(err.Error(), "closureResult") || strings.Contains(err.Error(), "boxedSlice") {
+				// the clause speaks through the contract of a function literal that this call site does not
+				// offer: nothing is assumed (sound), and the evidence says so
+				eng.warn("clause %q of %s not applicable at a call site in %s (%v): not assumed there", c.Src, shortCallee(con.Key), shortCallee(fc.fnName), err)
+				continue
 			}
 			panic(trErr(err.Error()))
 		}
